@@ -15,6 +15,7 @@ import numpy as np
 
 from qv.lib import Rec, rng_for
 
+PACKAGE_RAISE_IS_VIOLATION = True  # every shard input is built inside the statement's domain (see qv/shard.py)
 LEVEL = "exploration"
 RULE = (
     "one evaluation = one call of a (composite) displacement move on a seeded (label array, operation, composite size n, pre-selected or random target, "
